@@ -151,6 +151,11 @@ def _slice_cfgs():
             out.append({"m": 3, "start": start, "stop": stop, "step": None})
     out.append({"m": 3, "start": 0, "stop": 2, "step": 1})
     out.append({"m": 3, "start": 2, "stop": 0, "step": -1})
+    # the same on a histogram whose binning has been looked at before (filled caches must not leak into the selection)
+    out.append({"m": 3, "start": 1, "stop": None, "step": None, "warm": True})
+    out.append({"m": 3, "start": 0, "stop": 2, "step": None, "warm": True})
+    out.append({"m": 3, "start": 0, "stop": 2, "step": None, "warm": True, "kind": "static"})
+    out.append({"m": 3, "start": 1, "stop": 3, "step": None, "warm": True, "kind": "numpy"})
     return out
 
 
@@ -162,7 +167,7 @@ class _getitem_slice:
 
     def inputs(b):
         c = b.cfg
-        return dict(self=mk_hist(b, "h", 1, c.m, "gapped", "int64", meta={"name": "nm", "axis_names": ("ax",)}),
+        return dict(self=mk_hist(b, "h", 1, c.m, getattr(c, "kind", "gapped"), "int64", meta={"name": "nm", "axis_names": ("ax",)}),
                     index=slice(c.start, c.stop, c.step))
 
     def invoke(I, fn, a, cfg):
@@ -195,6 +200,10 @@ class _getitem_slice:
     @ensures("source_unchanged_result_independent")
     def _(a, old, result):
         return And(same_hist(old.self, a.self), result is not a.self, independent(result, a.self))
+
+    @ensures("both_histograms_are_well_formed_every_view_of_the_selected_bins_agrees")
+    def _(a, old, result):
+        return well_formed(a.self, result)
 
     @raises(IndexError, "reversed_slices_are_refused", state=lambda a, old: same_hist(old.self, a.self))
     def _(o):
@@ -236,7 +245,8 @@ class _getitem_int:
 
 def _mask_cfgs():
     return [{"m": 3, "kind": "mask"}, {"m": 3, "kind": "index", "idx": [0, 2]}, {"m": 3, "kind": "index", "idx": [1]},
-            {"m": 3, "kind": "badmask"}, {"m": 3, "kind": "index", "idx": [2, 0]}]
+            {"m": 3, "kind": "badmask"}, {"m": 3, "kind": "index", "idx": [2, 0]},
+            {"m": 3, "kind": "mask", "warm": True}, {"m": 3, "kind": "index", "idx": [0, 2], "warm": True}]
 
 
 @contract(H1K + ".__getitem__", props=["C11"], name=H1K + ".__getitem__[mask / index array]")
@@ -284,6 +294,10 @@ class _getitem_mask:
     def _(a, old, result):
         m1 = M(result)
         return And(Or(not result.keep_missed, And(isnan(m1[0]), isnan(m1[1]))), same_hist(old.self, a.self))
+
+    @ensures("both_histograms_are_well_formed_every_view_of_the_selected_bins_agrees")
+    def _(a, old, result):
+        return well_formed(a.self, result)
 
     @raises(IndexError, "wrongly_sized_mask_refused", state=lambda a, old: same_hist(old.self, a.self))
     def _(o):
